@@ -32,6 +32,7 @@ type Alpha struct {
 	PodDev    []string // deviation on pods: unready, restart:N, fail, unknown, waiting:Reason, unschedulable, quarantine
 	AddNodes  []string // deviation: "name" or "name:k=v,k=v"
 	DelNodes  bool     // deviation: delete any node
+	FgDelete  bool     // deviation: the active replica set is deleted with foreground propagation (it lingers, terminating, with a finalizer)
 	Taints    []string // deviation: taint any untainted node with effect
 	Ticks     []int    // deviation: clock ticks (seconds)
 	FreeTicks []int    // always-enabled clock ticks (seconds)
@@ -233,6 +234,13 @@ func (a *Alpha) Enabled(s *State) []Event {
 	}
 	for _, t := range a.Ticks {
 		evs = append(evs, Event{K: "tick", N: t, Dev: dev})
+	}
+	if a.FgDelete {
+		for _, e := range edss {
+			if rs := s.ERS(e.Namespace, e.Status.ActiveReplicaSet); rs != nil && rs.DeletionTimestamp == nil {
+				evs = append(evs, Event{K: "fgdelete", A: nn(rs), Dev: dev})
+			}
+		}
 	}
 	for _, e := range edss {
 		for _, f := range a.EDSFaults {
